@@ -423,6 +423,16 @@ def check(pid, tier, seed, use_cache, jobs, t0):
             if U.UNITS[unit_name].get('witness'):
                 n_replayed += 1
             violations.append((path, unit_name, h, obs))
+    # findings that are logical consequences of a finding of another property (no harness of this check fails for
+    # them): reproduced on the real crate and printed, nothing is carved out for them
+    try:
+        with open(os.path.join(VERIF, 'known_findings.json')) as f:
+            for kf in json.load(f)['findings']:
+                if kf.get('status') == 'open' and kf.get('derived_from') and pid in kf.get('properties', []):
+                    rp = replay_finding(kf['replay_id']) if kf.get('replay_id') else ''
+                    known_lines.append('KNOWN-FINDING: property=%s %s [%s; consequence of %s, no obligation of this check is weakened for it; real crate: %s]' % (pid, kf['what'], kf['id'], kf['derived_from'], rp))
+    except (OSError, ValueError, KeyError):
+        pass
     wall = time.time() - t0
     discharged = sum(1 for o in obligations if o['status'] == 'ok')
     ev = dict(
